@@ -6,6 +6,7 @@ import (
 	"context"
 	"encoding/json"
 	"fmt"
+	"os"
 	"sort"
 	"sync"
 	"testing"
@@ -424,11 +425,17 @@ func Exec(t *testing.T, sc Scenario, r *evid.Run) *evid.Failure {
 		if exhausted >= 0 && (ackDelivered < 0 || ackDelivered >= exhausted) && resp.t >= exhausted {
 			continue // the response came back only after the attempts were exhausted
 		}
+		if os.Getenv("VERIF_DEBUG") != "" {
+			fmt.Fprintf(os.Stderr, "DEBUG scenario %+v\n  errors: %q\n  ticks %v outs %+v\n", sc, errs.List(), tickTimes, outs)
+			for _, rec := range wire {
+				fmt.Fprintf(os.Stderr, "  wire %v dir=%d %x\n", rec.T, rec.Dir, rec.Data)
+			}
+		}
 		key := "retx/response-delivered-but-call-failed"
 		if q.Reaction == "ack-sep" && (ackDelivered < 0 || ackDelivered > resp.t) {
 			key = "retx/separate-response-before-ack-call-failed"
 		}
-		return evid.Failf(key, sc, "request %d: the response (%d %q) was delivered at %v, before exhaustion (%v) and before the deadline (%v), but the call failed at %v: %v", i, resp.m.Code, resp.m.Payload, resp.t, exhausted, dl, o.at, o.err)
+		return evid.Failf(key, sc, "request %d: the response (%d %q) was delivered at %v, before exhaustion (%v) and before the deadline (%v), but the call failed at %v: %v (errors the connection reported: %.400q)", i, resp.m.Code, resp.m.Payload, resp.t, exhausted, dl, o.at, o.err, errs.List())
 	}
 	// weak liveness: total silence, ticks at least every ACK_TIMEOUT/2, MAX_RETRANSMIT >= 1 => a retransmission happens
 	if len(sc.Reqs) == 1 && sc.MaxRetransmit >= 1 && sc.Reqs[0].Reaction == "nothing" && sc.Reqs[0].CancelMs == 0 && sc.Reqs[0].StartMs == 0 && len(failedWrites) == 0 {
